@@ -28,7 +28,7 @@ FAM = {0: 'clayton', 1: 'frank', 2: 'gumbel'}
 def cases(seed, tier):
     rng = rng_for(seed, 'C17')
     out = []
-    for r in range(150 if tier == 'quick' else 2400):
+    for r in range(150 if tier == 'quick' else 7000):
         d = int(rng.choice([2, 3, 4, 5, 6], p=[.1, .25, .3, .2, .15]))
         perm = [int(x) for x in rng.permutation(d)]
         out.append({'mode': 'fit', 'table': {'d': d, 'n': int(rng.choice([60, 200])),
